@@ -29,6 +29,7 @@ claimed = {
  "C15": ("All schedules (modulo sound partial-order reduction) of one data writer sending a multi-frame message, control-frame senders and a closer on one connection are explored as forked decisions; on each, the bytes handed to the transport parse as whole well-formed frames with control frames only between frames, the data message is intact and in order, nothing follows a Close frame and later writes fail with the close-sent error; no data race by vector-clock happens-before detection. Claimed for 3-4 threads; a concurrent reader and expiring write deadlines are outside.",
          "Bounded number of threads and frames; reductions and their soundness conditions are listed in the evidence assumptions. " + TRUST,
          "bounded symbolic execution with schedule forking (sleep-set reduced) + vector-clock race detection + RFC 6455 reference frame parser"),
+ "C17": std("Comment stripping: for JSON documents built from templates with symbolic string contents (so quotes via escapes, slashes, stars, apostrophes are solver choices) and symbolic comment contents in every slot between tokens, under forked read segmentations, the reader's output equals the document with its comments removed (comment-free documents pass byte for byte); counterexamples are confirmed natively with encoding/json as the oracle, so a whitespace-only deviation cannot raise an alarm."),
  "C18": ("Claimed for the connection-id clauses: on every schedule of goroutines creating contexts concurrently all ids are pairwise distinct and the id counter is accessed without a data race (vector-clock detection, confirmed natively under -race); an aliased context carries exactly its source's id and a fresh unused one when the source has none; for each kind of context (nil, application object with Cid(), context.Context with/without id) both formatting paths hand [pid] and the passed context's id to the formatter. NOT claimed: emission of exactly one whole, non-interleaved line per call (log.Logger, fmt, time and os.File are not encodable).",
          "Subset as stated. " + TRUST,
          "bounded symbolic execution with schedule forking + vector-clock race detection"),
